@@ -7,7 +7,7 @@ PROPS = "Props_C08"
 
 def run(res):
     vlib.proof_step(res, PROPS, ["theories/ConnCases.vo", "theories/RespCases.vo", "theories/StreamCases.vo"])
-    connrun.run_conn(res, ["term", "stream"], with_responder=True, with_streams=True)
+    connrun.run_conn(res, ["term", "stream", "subscript"], with_responder=True, with_streams=True)
 
 
 def replay(res, path):
